@@ -11,7 +11,7 @@ use serde_json::json;
 pub static MONITOR: Monitor = Monitor {
     id: "C13",
     title: "Output does not depend on source formatting of collapsible whitespace",
-    rule: "Metamorphic pairs: one table-free, pre-free grammar document (AST) is serialised twice - canonically (single spaces, no comments, no gaps between block tags) and with a random rewrite drawn from {every collapsible whitespace run replaced by another non-empty run over space/tab/LF/CRLF/FF, comments inserted next to such whitespace, inline runs wrapped in <span>, indentation/newlines between block-level tags, optional end tags omitted, attribute quoting varied}; each rewrite kind is also applied alone. Both sources are rendered at 3 widths in 1..=100 with plain (string) and rich (tagged lines, so whitespace tagging is compared). Oracle: byte-equal strings / equal tagged lines / equal errors. Distinct/non-trivial = distinct (document, rewrite) pairs whose two sources differ as bytes and whose rendering is Ok and non-empty.",
+    rule: "Metamorphic pairs: one table-free, pre-free grammar document (AST) is serialised twice - canonically (single spaces, no comments, no gaps between block tags) and with a random rewrite drawn from {every collapsible whitespace run replaced by another non-empty run over space/tab/LF/CRLF/FF, comments inserted next to such whitespace, inline runs wrapped in <span>, indentation/newlines between block-level tags, optional end tags omitted, attribute quoting varied}; each rewrite kind is also applied alone. Both sources are rendered at 3 widths in 1..=100 with plain (string) and rich (tagged lines with the zero-width fragment markers left out - their placement is C14's subject - so whitespace tagging is compared). Oracle: byte-equal strings / equal tagged lines / equal errors. Distinct/non-trivial = distinct (document, rewrite) pairs whose two sources differ as bytes and whose rendering is Ok and non-empty.",
     assumptions: &[
         "whitespace is inserted only where the property allows it: replacing existing collapsible runs, and between block-level siblings (never between inline elements)",
     ],
@@ -155,8 +155,15 @@ fn run_case(seed: u64, idx: u64, _tier: Tier, out: &mut CaseOut) {
             }
         }
         // rich: tagged lines
-        let a = render_lines(&rich_cfg, &base, w);
-        let b = render_lines(&rich_cfg, &variant, w);
+        // (text and annotations; on which side of a line break the zero-width marker of
+        // a text-less id'd element lands is not text - marker placement is C14's subject)
+        let no_frags = |ls: Vec<Line>| -> Vec<Line> {
+            ls.into_iter()
+                .map(|l| l.into_iter().filter(|p| !matches!(p, Piece::Frag(_))).collect())
+                .collect()
+        };
+        let a = render_lines(&rich_cfg, &base, w).map(no_frags);
+        let b = render_lines(&rich_cfg, &variant, w).map(no_frags);
         out.evals += 2;
         out.inc("pairs_compared");
         if a.is_total() && b.is_total() && a != b {
